@@ -19,13 +19,13 @@ from vcore.pool import pmap
 from vcore import session as S
 from vcore import tlc as T
 
-C13_VERDICTS = {"argument_modified", "state_written_in_eval", "undocumented_state_write", "repeat_differs", "reinitialised", "reinitialised_after_reload"}
+C13_VERDICTS = {"mode_changed", "frozen_statistics_written", "argument_modified", "state_written_in_eval", "undocumented_state_write", "repeat_differs", "reinitialised", "reinitialised_after_reload"}
 
 
 def run_sessions(run, verdicts, thorough, n_random, rand_len, cover=True, max_cover_steps=None, seeds=(0,), patterns=()):
     res, g = S.session_graph(view=True)
     run.model_must_hold(res, "Session")
-    run.add_tlc(res, "Session (all model kinds)", require_actions=["Call", "Train", "Eval", "TrainStep", "SaveLoadFresh"])
+    run.add_tlc(res, "Session (all model kinds)", require_actions=["Call", "Train", "Eval", "Freeze", "TrainStep", "SaveLoadFresh"])
     nproc = min(16, os.cpu_count() or 4)
     rnd = random.Random(run.seed)
     kinds = pmap(S.kinds_task, [0, 0], nproc=2)[0]
